@@ -9,6 +9,8 @@ import (
 	"encoding/hex"
 	"fmt"
 	"go/types"
+	"math/big"
+	"sort"
 	"strconv"
 	"strings"
 
@@ -435,4 +437,205 @@ func cpPlain(v value) value {
 		return out
 	}
 	return v
+}
+
+// ---- exponent view of the BLS group (C32) ----
+//
+// Enabled by sym.Note("mode:bls-exponent-view"). Group elements are linear forms over formal,
+// independent generators with integer coefficients: the valid signature of message hash h under
+// key pk is the generator g(pk,h) (what e(H(h), pk) pairs to), an arbitrary group element D is
+// its own generator, Sign.Add / GTMul add forms, Pairing(sig, G2) maps a signature form to the
+// GT form with the same coefficients, and GT.IsEqual compares coefficient-wise — which is the
+// generic-group meaning of the library calls made by the Go code in bls0chain_aggregate.go
+// and BLS0ChainScheme.Verify. Two forms are equal iff all coefficients are (independence of
+// the generators = no known discrete-log relation; assumption printed in the evidence).
+
+type blsLin struct{ coef map[string]*Term } // generator -> wide coefficient
+
+func (p *Path) blsGen(pub, hash string) string { return "g(" + pub[:8] + "," + hash[:8] + ")" }
+
+func linAdd(st *Store, a, b blsLin) blsLin {
+	out := blsLin{map[string]*Term{}}
+	for g, c := range a.coef {
+		out.coef[g] = c
+	}
+	for g, c := range b.coef {
+		if o, ok := out.coef[g]; ok {
+			out.coef[g] = st.Bin(OAdd, o, c)
+		} else {
+			out.coef[g] = c
+		}
+	}
+	return out
+}
+
+func linEq(st *Store, a, b blsLin) *Term {
+	res := st.Bool(true)
+	zero := st.Wide(big.NewInt(0))
+	gens := map[string]bool{}
+	for g := range a.coef {
+		gens[g] = true
+	}
+	for g := range b.coef {
+		gens[g] = true
+	}
+	names := make([]string, 0, len(gens))
+	for g := range gens {
+		names = append(names, g)
+	}
+	sort.Strings(names)
+	for _, g := range names {
+		x, ok := a.coef[g]
+		if !ok {
+			x = zero
+		}
+		y, ok := b.coef[g]
+		if !ok {
+			y = zero
+		}
+		res = st.And(res, st.Eq(x, y))
+	}
+	return res
+}
+
+const blsLinOpen = "\x01BLS:"
+
+func (p *Path) linToString(l blsLin) string {
+	if p.blsObjs == nil {
+		p.blsObjs = map[int]blsLin{}
+	}
+	id := len(p.blsObjs) + 1
+	p.blsObjs[id] = l
+	return blsLinOpen + strconv.Itoa(id) + "\x01"
+}
+
+// linOfSig: the linear form of a signature string (a form marker, or an ideal signature made in
+// this run = its generator, or an unknown string = a generator of its own).
+func (p *Path) linOfSig(sig string) blsLin {
+	st := p.store
+	one := st.Wide(big.NewInt(1))
+	if strings.HasPrefix(sig, blsLinOpen) {
+		id, err := strconv.Atoi(strings.TrimSuffix(strings.TrimPrefix(sig, blsLinOpen), "\x01"))
+		if err == nil {
+			if l, ok := p.blsObjs[id]; ok {
+				return l
+			}
+		}
+	}
+	if rec, ok := p.sigs[strings.ToLower(sig)]; ok {
+		return blsLin{map[string]*Term{p.blsGen(rec[0], rec[1]): one}}
+	}
+	return blsLin{map[string]*Term{"elem(" + sig + ")": one}}
+}
+
+func init() {
+	extraRegs = append(extraRegs, func() {
+		enc := "(*0chain.net/core/encryption.BLS0ChainScheme)."
+		bl := "github.com/herumi/bls-go-binary/bls."
+		expo := func(fr *frame) bool {
+			for _, n := range fr.i.p.notes {
+				if n == "mode:bls-exponent-view" {
+					return true
+				}
+			}
+			return false
+		}
+		wrap := func(name string, f func(fr *frame, args []value) (value, bool)) {
+			old := externals[name]
+			externals[name] = func(fr *frame, args []value) value {
+				if expo(fr) {
+					if v, ok := f(fr, args); ok {
+						return v
+					}
+				}
+				if old == nil {
+					panic(unsupported(name + " outside the BLS models"))
+				}
+				return old(fr, args)
+			}
+		}
+		wrap(enc+"GetSignature", func(fr *frame, args []value) (value, bool) {
+			sig := args[1].(string)
+			var nilp *value
+			if sig == "" {
+				return tuple{nilp, fr.i.makeError("empty signature")}, true
+			}
+			var cell value = fr.i.p.linOfSig(sig)
+			return tuple{&cell, iface{}}, true
+		})
+		wrap(enc+"PairMessageHash", func(fr *frame, args []value) (value, bool) {
+			s := (*args[0].(*value)).(structure)
+			pub, _ := s[1].([]value)
+			st := fr.i.p.store
+			var cell value = blsLin{map[string]*Term{fr.i.p.blsGen(hex.EncodeToString(valuesToBytes(pub)), args[1].(string)): st.Wide(big.NewInt(1))}}
+			return tuple{&cell, iface{}}, true
+		})
+		wrap(enc+"Verify", func(fr *frame, args []value) (value, bool) {
+			s := (*args[0].(*value)).(structure)
+			pub, _ := s[1].([]value)
+			sig := args[1].(string)
+			if sig == "" {
+				return tuple{false, fr.i.makeError("empty signature")}, true
+			}
+			st := fr.i.p.store
+			want := blsLin{map[string]*Term{fr.i.p.blsGen(hex.EncodeToString(valuesToBytes(pub)), args[2].(string)): st.Wide(big.NewInt(1))}}
+			return tuple{lower(linEq(st, fr.i.p.linOfSig(sig), want), nil), iface{}}, true
+		})
+		wrap("(*"+bl+"Sign).Add", func(fr *frame, args []value) (value, bool) {
+			a, ok1 := (*args[0].(*value)).(blsLin)
+			b, ok2 := (*args[1].(*value)).(blsLin)
+			if !ok1 || !ok2 {
+				return nil, false
+			}
+			*args[0].(*value) = linAdd(fr.i.p.store, a, b)
+			return nil, true
+		})
+		wrap(bl+"GTMul", func(fr *frame, args []value) (value, bool) {
+			b, ok1 := (*args[1].(*value)).(blsLin)
+			c, ok2 := (*args[2].(*value)).(blsLin)
+			if !ok1 || !ok2 {
+				return nil, false
+			}
+			*args[0].(*value) = linAdd(fr.i.p.store, b, c)
+			return nil, true
+		})
+		wrap("(*"+bl+"G1).Deserialize", func(fr *frame, args []value) (value, bool) {
+			b := args[1].([]value)
+			if len(b) == 1 {
+				if m, ok := b[0].(blsLin); ok {
+					*args[0].(*value) = m
+					return iface{}, true
+				}
+			}
+			return nil, false
+		})
+		wrap(bl+"Pairing", func(fr *frame, args []value) (value, bool) {
+			m, ok := (*args[1].(*value)).(blsLin)
+			if !ok {
+				return nil, false
+			}
+			*args[0].(*value) = m
+			return nil, true
+		})
+		wrap("(*"+bl+"GT).IsEqual", func(fr *frame, args []value) (value, bool) {
+			l, ok1 := (*args[0].(*value)).(blsLin)
+			r, ok2 := (*args[1].(*value)).(blsLin)
+			if !ok1 || !ok2 {
+				return nil, false
+			}
+			return lower(linEq(fr.i.p.store, l, r), nil), true
+		})
+		// sym.BLSAddMul(sig, d, c): sig + c*d with a (possibly symbolic) integer c
+		externals[symPkg+".BLSAddMul"] = func(fr *frame, args []value) value {
+			p := fr.i.p
+			st := p.store
+			a, d := p.linOfSig(args[0].(string)), p.linOfSig(args[1].(string))
+			c := st.Conv(toTerm(st, args[2]), 0, false)
+			scaled := blsLin{map[string]*Term{}}
+			for g, k := range d.coef {
+				scaled.coef[g] = st.mk(&Term{op: OMul, kind: KWide, a: []*Term{k, c}})
+			}
+			return p.linToString(linAdd(st, a, scaled))
+		}
+	})
 }
